@@ -103,16 +103,17 @@ def tlc_mc(module, cfg=None, workers=16, env=None, timeout=3000, constants=None,
 
 
 def _extract_printed(out, tag):
-    """All TLC-printed tuples <<"tag", ...>> (possibly wrapped over lines, possibly interleaved
-    between workers) -> list of raw strings, by bracket matching."""
+    """All TLC-printed tuples <<"tag", ...>> (possibly wrapped over lines as `<< "tag",` and
+    possibly interleaved between workers) -> list of raw strings, by bracket matching."""
     res = []
-    key = '<<"%s"' % tag
+    pat = re.compile(r'<<\s*"%s"' % re.escape(tag))
     i = 0
     n = len(out)
     while True:
-        j = out.find(key, i)
-        if j < 0:
+        m = pat.search(out, i)
+        if not m:
             break
+        j = m.start()
         depth = 0
         k = j
         instr = False
@@ -139,7 +140,7 @@ def _extract_printed(out, tag):
     return res
 
 
-_V = re.compile(r'<<"V",\s*(-?\d+),\s*\{(.*)\}\s*>>', re.S)
+_V = re.compile(r'<<\s*"V",\s*(-?\d+),\s*\{(.*)\}\s*>>', re.S)
 
 
 def _parse_verdicts(out):
@@ -280,7 +281,7 @@ def tlc_simulate_json(module, cfg=None, num=200, depth=12, seed=0, env=None, tim
         rc, out = _java(args, env=env, cwd=tmp, timeout=timeout, xmx=xmx)
         res = []
         for raw in _extract_printed(out, tag):
-            m = re.match(r'<<"%s",\s*(".*")\s*>>$' % tag, raw, re.S)
+            m = re.match(r'<<\s*"%s",\s*(".*")\s*>>$' % tag, raw, re.S)
             if not m:
                 continue
             s = m.group(1)
